@@ -77,7 +77,7 @@ def correspond(res, n):
 
 def run(res):
     res.proof_step('Props/C11.v', extra_targets=['Model/Restart.vo', 'Model/Pool.vo'],
-                           kernels_needed=['K_restart', 'G_pool_shape'])
+                           kernels_needed=['K_restart', 'G_pool_shape', 'G_pool_pins'])
     n = 300 if res.tier == 'quick' else 20000
     if res.broken:
         n = max(n, 5000)      # failing-input search
